@@ -9,6 +9,13 @@ def repo_commits(prefix):
     return [l.split()[0] for l in out.splitlines() if l.split(" ", 1)[1].startswith(prefix)]
 
 CLAIMS = {
+    "C13": dict(
+        level="exploration",
+        technique="property-based testing: metamorphic relations (dry identity, zero-in/zero-out, superposition, re-partitioning) on Box<dyn Effect> over generated parameters, rates, signals and slice partitions",
+        text="Every built-in effect (and delays with nested feedback effects) is built through its public builder and driven with generated parameters from the documented ranges and their edges, sample rates 8k..192k, eight signal families and two independent partitions into process() slices; five oracles per case. Search over a large generated space with shrinking, not a proof.",
+        note="Effects are driven outside the mixer with a MockInfoBuilder Info; feedback loops are restricted to provable loop gain <= 0.95 (divergence above 1 is by design). Tolerances in the evidence assumptions.",
+        design="5/C13",
+    ),
     "C19": dict(
         level="exploration",
         technique="property-based testing (proptest choice tape) + exhaustive f32 bit-pattern sweep against f64 reference laws",
